@@ -171,6 +171,19 @@ theorem anon_message_no_field :
 theorem json_list_text_no_field :
     (parseMsg "[\"Foo.i: Got 0; Expected a minimum of 3\"]".toList).field = none := by decide
 
+/-- findings `no-path:enum-invalid-value:deser`, `no-path:unnamed-inner-field:deser-collection`,
+    `no-path:unhashable:deser-set` (and the former `no-path:index-error:deser-positional`): texts
+    that deserialization raises without any path — bare, and with the class prefix that
+    `raise_errs_if_needed` adds — give no field (or, for an unnamed Enum item, the field `None`) -/
+theorem deser_foreign_texts_no_field :
+    (parseMsg "Invalid value: 'PINK'".toList).field = none ∧
+    (parseMsg "Foo.Invalid value: 'PINK'".toList).field = none ∧
+    (parseMsg "Expected <class 'int'>; Got 'x'".toList).field = none ∧
+    (parseMsg "Foo.Expected <class 'int'>; Got 'x'".toList).field = none ∧
+    (parseMsg "list index out of range".toList).field = none ∧
+    (parseMsg "None: Got 5; Expected one of 1, 2".toList).field = some "None".toList := by
+  decide
+
 /-- `Expected <class 'int'>` becomes readable; a class without display name is formatted from the
     match object (flag set) — a defect of `_transform_class_to_readable`, not of the property -/
 theorem transform_examples :
